@@ -529,7 +529,7 @@ class TemplateModel(object):
                 continue
             try:
                 arr = self._read_array(filename)
-                assert arr.shape[0] == self.n_spikes
+                assert arr.ndim >= 1 and arr.shape[0] == self.n_spikes
                 logger.debug("Load %s.", filename.name)
             except (IOError, AssertionError) as e:
                 logger.warning("Unable to open %s: %s.", filename.name, e)
